@@ -42,6 +42,7 @@ type Result struct {
 	Data     *parsers.J
 	Errors   []Err
 	Resolved []string // resolver positions invoked
+	Fields   []string // every field position executed (field interceptors see exactly these)
 	DirCalls []string // directive positions invoked
 	Panics   int
 	Groups   []*Group // deferred groups started (defer-aware mode)
@@ -276,6 +277,9 @@ func scan(v any) string {
 func (e *exec) field(objType, objID string, fd *ast.FieldDefinition, f *ast.Field, sel ast.SelectionSet, path string) *parsers.J {
 	b := e.env.Binding(objType, fd.Name)
 	p := e.env.Plan
+	if !b.Resolver || e.argFault(f) == "" {
+		e.res.Fields = append(e.res.Fields, path)
+	}
 	if !b.Resolver {
 		// struct-backed: value is a function of the object, not of the response key
 		if p.StructNull(objID, fd.Name, b.Nilable) {
